@@ -1225,6 +1225,9 @@ def _fixture(chk):
 
 
 def run(repo, chk, tier):
+    from ..cacheown import check_persistent_state
+
+    check_persistent_state(repo, chk, ["tf_pwa/generator/", "tf_pwa/adaptive_bins.py", "tf_pwa/histogram.py"])
     chk.rule("P1", "every bin-membership mask of AdaptiveBound is half-open (exactly one closed side)")
     chk.rule("P2", "all mask sites close the same side")
     chk.rule("P3", "lower/upper bound of a mask are components 0/1 of one (lower, upper) pair")
